@@ -8,6 +8,7 @@
      forall n prog main, run_scopes false n prog main = run_cells n prog main. *)
 From Coq Require Import ZArith List Bool.
 From CyVerif Require Import Lib.MiniPy Model.M_Closure Proof.P_Closure.
+From CyVerif Require Import Model.M_Unpack Proof.P_Unpack.
 Import ListNotations.
 
 (* the compiler's scheme with the del-of-unbound-global repair: indistinguishable from CPython's cells,
@@ -59,3 +60,74 @@ Example C01_nonvacuous :
   run_cells 100 prog main = Done (VInt 25) [VInt 11] /\
   run_scopes false 100 prog main = Done (VInt 25) [VInt 11].
 Proof. vm_compute. split; reflexivity. Qed.
+
+(* ---------------------------------------------------------------------------------------------------
+   Sequence unpacking (Model/M_Unpack.v): the code generated for  T = rhs,  for T in ...,  [.. for T in ..]
+   by SequenceNode.generate_assignment_code computes Python's unpacking.
+   cy_assign  = the generated protocol (exact tuple/list fast path by size check + item copy; generic
+                iterator path with its "need more than k values" / "too many values" decisions; starred
+                path: left targets by iteration, rest into a list, length guard, right targets read
+                from its end) applied to nested targets left to right;
+   ref_assign = unpacking as the language reference defines it, by the number of items.
+   Outcome = (trace of observable iterator next-calls and bindings in order, Done | exception | Stuck);
+   erase forgets the wording of CPython's message but keeps the number it reports (got / expected).
+   Unbounded in the number and nesting of targets and in the number of items; wf is what Python
+   guarantees about exact tuples/lists, st_ok the soundness of the static type of the right-hand side. *)
+Theorem C01_unpack_one_level_correct : forall (st : stype) (nl : nat) (star : option nat) (v : val),
+  wf v -> st_ok st v ->
+  obs v (cy_unpack st nl star v) = obs v (map_res erase (ref_unpack nl star v)).
+Proof. exact P_Unpack.cy_unpack_correct. Qed.
+Print Assumptions C01_unpack_one_level_correct.
+
+Theorem C01_unpack_nested_correct : forall (st : stype) (t : target) (v : val),
+  wf v -> st_ok st v -> cy_assign st t v = map_a erase (ref_assign t v).
+Proof. exact P_Unpack.cy_assign_correct. Qed.
+Print Assumptions C01_unpack_nested_correct.
+
+(* no read outside ob_item (the indices len-(i+1) and 0..n-1 are in range whenever the guards pass) and
+   the unpacked temps always match the targets one to one *)
+Theorem C01_unpack_safe : forall (st : stype) (t : target) (v : val),
+  wf v -> st_ok st v ->
+  snd (cy_assign st t v) <> AStuck /\ snd (cy_assign st t v) <> AExc COutOfBounds.
+Proof. exact P_Unpack.cy_assign_safe. Qed.
+Print Assumptions C01_unpack_safe.
+
+Theorem C01_unpack_starred_is_new_list : forall st nl nr v c vals, wf v -> st_ok st v ->
+  cy_unpack st nl (Some nr) v = (c, Vals vals) -> exists l, nth_error vals nl = Some (new_list l).
+Proof. exact P_Unpack.starred_is_new_list. Qed.
+Print Assumptions C01_unpack_starred_is_new_list.
+
+(* the length guard of the starred path is tight: with len <= n_right instead of len < n_right the
+   statement fails at the boundary (a, *b, c = [1, 2]) *)
+Theorem C01_unpack_star_guard_tight : exists nl nr v, wf v /\
+  snd (cy_star_g true nl nr v) <> snd (map_res erase (ref_unpack nl (Some nr) v)).
+Proof. exact P_Unpack.cy_star_guard_tight. Qed.
+Print Assumptions C01_unpack_star_guard_tight.
+
+(* for k, v in obj.items() on a non-dict: the pair goes through __Pyx_unpack_tuple2.
+   Full statement (false on the tree, finding items_loop_tuple_subclass_iter_ignored):
+     forall ls rs v, wf v -> length ls + length rs = 2 ->
+       cy_items_assign false (TSeq ls None rs) v = map_a erase (ref_assign (TSeq ls None rs) v).
+   Proved for the tree (fx = false) when the item is not a tuple subclass overriding __iter__, and for
+   the proposed PyTuple_CheckExact (fx = true) without that restriction. *)
+Theorem C01_unpack_items_loop_partial : forall fx ls rs v, wf v -> (fx = false -> plain_tuplesub v) ->
+  length ls + length rs = 2 ->
+  cy_items_assign fx (TSeq ls None rs) v = map_a erase (ref_assign (TSeq ls None rs) v).
+Proof. exact P_Unpack.cy_items_assign_correct. Qed.
+Print Assumptions C01_unpack_items_loop_partial.
+
+Theorem C01_unpack_items_loop_refuted : exists v, wf v /\
+  snd (cy_tuple2 false v) <> snd (map_res erase (ref_unpack 2 None v)).
+Proof. exact P_Unpack.cy_tuple2_refuted. Qed.
+Print Assumptions C01_unpack_items_loop_refuted.
+
+(* non-trivial instance:  (a, *b), *c, d = [iter-object 9 yielding 1 2 3, 4, 5]  binds a=1 b=[2,3]
+   c=[4] d=5 after four observable next-calls on object 9 *)
+Example C01_unpack_nonvacuous :
+  let it := VSeq {| h_kind := KOther; h_id := 9; h_logs := true; h_end := EndStop |} []
+                 [VAtom 1; VAtom 2; VAtom 3] in
+  let t := TSeq [TSeq [TName 0] (Some 1) []] (Some 2) [TName 3] in
+  cy_assign SObj t (new_list [it; VAtom 4; VAtom 5])
+  = ([EvNext 9; EvNext 9; EvNext 9; EvNext 9; EvBind 0 (VAtom 1);
+      EvBind 1 (new_list [VAtom 2; VAtom 3]); EvBind 2 (new_list [VAtom 4]); EvBind 3 (VAtom 5)], ADone).
+Proof. vm_compute. reflexivity. Qed.
